@@ -111,7 +111,7 @@ def check_rows(case):
     sub = sorted(set(i % m for i in case["sub"]))
     # every row also travels alone when the batch is small (a row sitting exactly on a decision border behaves differently only when alone)
     singles = list(range(m)) if (m <= 32 and case.get("all_singles", True)) else sorted(set(i % m for i in case["singles"]))
-    labels = [name]
+    labels = [name, "errstate:raise" if case.get("errstate") else "errstate:default"]
     nontrivial = False
     # a copy pickled straight after fit, BEFORE any prediction was asked of the model (lazily built helpers do not exist yet)
     try:
@@ -122,98 +122,107 @@ def check_rows(case):
     # the order in which the public methods are called is part of the case (predict_proba before predict, transform before predict, ...)
     rot = (case["perm"][0] if case["perm"] else 0) % max(1, len(methods))
     methods = methods[rot:] + methods[:rot]
-    for meth in methods:
-        np.random.seed(1)
-        try:
-            full = entry.call(est, meth, Q)
-        except Exception as e:  # noqa: BLE001 - the whole batch is refused: outside this statement
-            from vf.core import repo_frame
-            labels.append("refused:%s" % meth)
-            continue
-        f2 = dict(facts, method=meth)
-        if name == "PermutationReciprocalTransformer" and not est.closest:
-            # without closest=True unseen labels are filtered by the entry: indices refer to the filtered vector
-            Qm = np.array([z for z in np.asarray(Q).tolist() if z in est.permutation_], dtype=np.float64)
-        else:
-            Qm = Q
-        mm = R.nrows(Qm)
-        kept = np.array(full, copy=True)        # the caller still holds `full` while other batches go through the same model
-        again = entry.call(est, meth, Q)
-        d = _same(full, again, True)
-        require(d is None, "repeat:differs", "%s called twice on the same batch: %s" % (meth, d), f2)
-        require(len(full) == mm, "rows:length", "%s returned %d rows for %d" % (meth, len(full), mm), f2)
-        for kind, idx in (("permutation", [i for i in perm if i < mm]), ("sub-batch", [i for i in sub if i < mm])) + tuple(("single", [i]) for i in singles if i < mm):
-            if not idx:
-                continue
-            part = entry.call(est, meth, R.subset(Qm, idx))
-            d = _same(np.asarray(full)[idx], part, False)
-            require(d is None, "rows:%s:%s" % (kind, meth), "%s(batch)[idx] != %s(batch[idx]) for idx=%r: %s" % (meth, meth, idx[:8], d), dict(f2, index_kind=kind))
-        if isinstance(Qm, np.ndarray) and Qm.ndim == 2 and mm >= 2:
-            # the caller edits its batch in place between two calls and passes the SAME array object again (what permutation importance
-            # does): the answer follows the content, not the identity of the object
-            pidx = [i for i in perm if i < mm]
-            Qw = Qm.copy()
-            entry.call(est, meth, Qw)
-            Qw[:] = Qm[pidx]
-            second = entry.call(est, meth, Qw)
-            d = _same(np.asarray(full)[pidx], second, False)
-            require(d is None, "repeat:same-object-edited-in-place:" + meth, "%s on an array edited in place after a first call: %s" % (meth, d), f2)
-        if isinstance(Qm, np.ndarray) and Qm.ndim == 2 and Qm.dtype == np.float64 and mm >= 1:
-            # the same rows in other containers a caller may hold them in: nested lists, a read-only array (a memory-mapped file, a
-            # pandas block), Fortran order, a non-native byte order (data read from a big-endian file).  A class may refuse a
-            # container; if it answers, it answers what it answers for the plain array
-            ro = Qm.copy()
-            ro.flags.writeable = False
-            for cname, Qc in (("nested-lists", Qm.tolist()), ("read-only", ro), ("fortran-order", np.asfortranarray(Qm.copy())), ("big-endian", Qm.astype(">f8"))):
+    # the caller may run with numpy.errstate(all="raise") (a debugging habit, some test suites): a FloatingPointError then raised by a
+    # call is a refusal of that call (the rest of the case is skipped); an ANSWER given under it is judged like any other
+    import contextlib
+    try:
+        with (np.errstate(all="raise") if case.get("errstate") else contextlib.nullcontext()):
+            for meth in methods:
+                np.random.seed(1)
                 try:
-                    outc = entry.call(est, meth, Qc)
-                except Exception:  # noqa: BLE001 - refusing a container is outside the statement
-                    labels.append("container-refused:" + cname)
+                    full = entry.call(est, meth, Q)
+                except Exception as e:  # noqa: BLE001 - the whole batch is refused: outside this statement
+                    from vf.core import repo_frame
+                    labels.append("refused:%s" % meth)
                     continue
-                d = _same(full, outc, False)
-                require(d is None, "rows:container:%s:%s" % (cname, meth), "%s on the same rows held as %s: %s" % (meth, cname, d), dict(f2, container=cname))
-        if name in ("PiecewiseRegressor", "PiecewiseClassifier") and meth == methods[0] and case.get("process_backend"):
-            # the caller has a process-based joblib backend active (prefer="threads" is only a hint, a backend context overrides it):
-            # same answers as without it
-            import joblib
-            with joblib.parallel_backend("multiprocessing", n_jobs=2):
-                inside = entry.call(est, meth, Q)
-            d = _same(full, inside, True)
-            require(d is None, "backend:process-based:" + meth, "%s under joblib.parallel_backend('multiprocessing') differs from the plain call: %s" % (meth, d), f2)
-            labels.append("process-backend")
-        d = _same(full, kept, True)
-        require(d is None, "repeat:earlier-result-overwritten", "the array %s returned for the batch changed while other batches were sent through the same model: %s" % (meth, d), f2)
-        if len(np.unique(np.asarray(full).reshape(len(full), -1).astype(str), axis=0)) >= 2 and (perm != list(range(m)) or len(sub) < m):
-            nontrivial = True
-        # persistence
-        try:
-            blob = pickle.dumps(est)
-            est2 = pickle.loads(blob)
-        except Exception as e:  # noqa: BLE001 - a fitted model that cannot make the round trip breaks the statement
-            raise Violation("pickle:raises:%s" % type(e).__name__, "%s: %s" % (type(e).__name__, str(e)[:300]), f2)
-        d = _same(full, entry.call(est2, meth, Q), True)
-        require(d is None, "pickle:differs:" + meth, "unpickled model answers differently: %s" % d, f2)
-        d = _same(full, entry.call(early, meth, Q), True)
-        require(d is None, "pickle:differs:before-first-call:" + meth, "a copy pickled right after fit, before any prediction, answers differently: %s" % d, f2)
-        try:
-            est3 = _testing.clone_with_fitted_parameters(est)
-        except RuntimeError as e:
-            if "Cannot migrate" in str(e) or "missing" in str(e):
-                labels.append("clone_fitted:refused")
-                est3 = None
-            else:
-                raise
-        if est3 is not None:
-            d = _same(full, entry.call(est3, meth, Q), True)
-            require(d is None, "clone_with_fitted_parameters:differs:" + meth, "the copy answers differently: %s" % d, f2)
-            d = _same(full, entry.call(est, meth, Q), True)
-            require(d is None, "clone_with_fitted_parameters:original-changed:" + meth, "%s" % d, f2)
-            labels.append("clone_fitted:ok")
-            if meth == methods[-1]:
-                # updating the copy's fitted arrays in place must not reach the original (no shared mutable state)
-                _scramble(est3)
-                d = _same(full, entry.call(est, meth, Q), True)
-                require(d is None, "clone_with_fitted_parameters:shares-state:" + meth, "changing the copy's fitted arrays changed the original's answers: %s" % d, f2)
+                f2 = dict(facts, method=meth)
+                if name == "PermutationReciprocalTransformer" and not est.closest:
+                    # without closest=True unseen labels are filtered by the entry: indices refer to the filtered vector
+                    Qm = np.array([z for z in np.asarray(Q).tolist() if z in est.permutation_], dtype=np.float64)
+                else:
+                    Qm = Q
+                mm = R.nrows(Qm)
+                kept = np.array(full, copy=True)        # the caller still holds `full` while other batches go through the same model
+                again = entry.call(est, meth, Q)
+                d = _same(full, again, True)
+                require(d is None, "repeat:differs", "%s called twice on the same batch: %s" % (meth, d), f2)
+                require(len(full) == mm, "rows:length", "%s returned %d rows for %d" % (meth, len(full), mm), f2)
+                for kind, idx in (("permutation", [i for i in perm if i < mm]), ("sub-batch", [i for i in sub if i < mm])) + tuple(("single", [i]) for i in singles if i < mm):
+                    if not idx:
+                        continue
+                    part = entry.call(est, meth, R.subset(Qm, idx))
+                    d = _same(np.asarray(full)[idx], part, False)
+                    require(d is None, "rows:%s:%s" % (kind, meth), "%s(batch)[idx] != %s(batch[idx]) for idx=%r: %s" % (meth, meth, idx[:8], d), dict(f2, index_kind=kind))
+                if isinstance(Qm, np.ndarray) and Qm.ndim == 2 and mm >= 2:
+                    # the caller edits its batch in place between two calls and passes the SAME array object again (what permutation importance
+                    # does): the answer follows the content, not the identity of the object
+                    pidx = [i for i in perm if i < mm]
+                    Qw = Qm.copy()
+                    entry.call(est, meth, Qw)
+                    Qw[:] = Qm[pidx]
+                    second = entry.call(est, meth, Qw)
+                    d = _same(np.asarray(full)[pidx], second, False)
+                    require(d is None, "repeat:same-object-edited-in-place:" + meth, "%s on an array edited in place after a first call: %s" % (meth, d), f2)
+                if isinstance(Qm, np.ndarray) and Qm.ndim == 2 and Qm.dtype == np.float64 and mm >= 1:
+                    # the same rows in other containers a caller may hold them in: nested lists, a read-only array (a memory-mapped file, a
+                    # pandas block), Fortran order, a non-native byte order (data read from a big-endian file).  A class may refuse a
+                    # container; if it answers, it answers what it answers for the plain array
+                    ro = Qm.copy()
+                    ro.flags.writeable = False
+                    for cname, Qc in (("nested-lists", Qm.tolist()), ("read-only", ro), ("fortran-order", np.asfortranarray(Qm.copy())), ("big-endian", Qm.astype(">f8"))):
+                        try:
+                            outc = entry.call(est, meth, Qc)
+                        except Exception:  # noqa: BLE001 - refusing a container is outside the statement
+                            labels.append("container-refused:" + cname)
+                            continue
+                        d = _same(full, outc, False)
+                        require(d is None, "rows:container:%s:%s" % (cname, meth), "%s on the same rows held as %s: %s" % (meth, cname, d), dict(f2, container=cname))
+                if name in ("PiecewiseRegressor", "PiecewiseClassifier") and meth == methods[0] and case.get("process_backend"):
+                    # the caller has a process-based joblib backend active (prefer="threads" is only a hint, a backend context overrides it):
+                    # same answers as without it
+                    import joblib
+                    with joblib.parallel_backend("multiprocessing", n_jobs=2):
+                        inside = entry.call(est, meth, Q)
+                    d = _same(full, inside, True)
+                    require(d is None, "backend:process-based:" + meth, "%s under joblib.parallel_backend('multiprocessing') differs from the plain call: %s" % (meth, d), f2)
+                    labels.append("process-backend")
+                d = _same(full, kept, True)
+                require(d is None, "repeat:earlier-result-overwritten", "the array %s returned for the batch changed while other batches were sent through the same model: %s" % (meth, d), f2)
+                if len(np.unique(np.asarray(full).reshape(len(full), -1).astype(str), axis=0)) >= 2 and (perm != list(range(m)) or len(sub) < m):
+                    nontrivial = True
+                # persistence
+                try:
+                    blob = pickle.dumps(est)
+                    est2 = pickle.loads(blob)
+                except Exception as e:  # noqa: BLE001 - a fitted model that cannot make the round trip breaks the statement
+                    raise Violation("pickle:raises:%s" % type(e).__name__, "%s: %s" % (type(e).__name__, str(e)[:300]), f2)
+                d = _same(full, entry.call(est2, meth, Q), True)
+                require(d is None, "pickle:differs:" + meth, "unpickled model answers differently: %s" % d, f2)
+                d = _same(full, entry.call(early, meth, Q), True)
+                require(d is None, "pickle:differs:before-first-call:" + meth, "a copy pickled right after fit, before any prediction, answers differently: %s" % d, f2)
+                try:
+                    est3 = _testing.clone_with_fitted_parameters(est)
+                except RuntimeError as e:
+                    if "Cannot migrate" in str(e) or "missing" in str(e):
+                        labels.append("clone_fitted:refused")
+                        est3 = None
+                    else:
+                        raise
+                if est3 is not None:
+                    d = _same(full, entry.call(est3, meth, Q), True)
+                    require(d is None, "clone_with_fitted_parameters:differs:" + meth, "the copy answers differently: %s" % d, f2)
+                    d = _same(full, entry.call(est, meth, Q), True)
+                    require(d is None, "clone_with_fitted_parameters:original-changed:" + meth, "%s" % d, f2)
+                    labels.append("clone_fitted:ok")
+                    if meth == methods[-1]:
+                        # updating the copy's fitted arrays in place must not reach the original (no shared mutable state)
+                        _scramble(est3)
+                        d = _same(full, entry.call(est, meth, Q), True)
+                        require(d is None, "clone_with_fitted_parameters:shares-state:" + meth, "changing the copy's fitted arrays changed the original's answers: %s" % d, f2)
+    except FloatingPointError:
+        if not case.get("errstate"):
+            raise
+        labels.append("floating-point-error-raised-under-errstate")
     return Outcome(sorted(set(labels)), nontrivial)
 
 
@@ -232,14 +241,14 @@ def _cases(draw, name, tier="quick"):
     k = 16
     return dict(cls=name, spec=spec, data=data, extra=extra, seed=draw(st.integers(0, 2**31 - 10)),
                 perm=[draw(st.integers(0, 40)) for _ in range(k)], sub=[draw(st.integers(0, 40)) for _ in range(draw(st.integers(1, 6)))],
-                singles=[draw(st.integers(0, 40)) for _ in range(2)], process_backend=draw(st.integers(0, 3)) == 0)
+                singles=[draw(st.integers(0, 40)) for _ in range(2)], process_backend=draw(st.integers(0, 3)) == 0, errstate=draw(st.integers(0, 2 if name == "PiecewiseClassifier" else 5)) == 0)
 
 
 def _clause(name):
     heavy = name in ("ConstraintKMeans", "ApproximateNMFPredictor", "DecisionTreeLogisticRegression", "ClassifierAfterKMeans", "PiecewiseClassifier", "PiecewiseRegressor")
     # the tree of logistic regressions has data-dependent borders (a row exactly on a node threshold): it gets many more cases
     border = name == "DecisionTreeLogisticRegression"
-    return Clause("rows:" + name, check_rows, strategy=lambda tier, n=name: _cases(n, tier), quick=640 if border else (60 if heavy else 100),
+    return Clause("rows:" + name, check_rows, strategy=lambda tier, n=name: _cases(n, tier), quick=640 if border else (160 if name == "PiecewiseClassifier" else (60 if heavy else 100)),
                   thorough=6000 if border else (800 if heavy else 1500), quick_shards=8 if border else 1, thorough_shards=8 if border else 2, doc="batch vs sub-batches / permutations / single rows, repeat, pickle, clone_with_fitted_parameters on %s" % name)
 
 
